@@ -163,8 +163,8 @@ class Var:
 class Module:
     """items: list of Var | Module (= `initializes: alias`) | ('const', name)"""
 
-    def __init__(self, alias, items, nr):
-        self.alias, self.items, self.nr = alias, items, nr
+    def __init__(self, alias, items, nr, uses=None):
+        self.alias, self.items, self.nr, self.uses = alias, items, nr, uses
 
     def children(self):
         return [i for i in self.items if isinstance(i, Module)]
@@ -198,6 +198,8 @@ class Module:
         lines = []
         for c in self.children():
             lines.append(f"import {c.alias}")
+        if self.uses:
+            lines.append(f"import {self.uses}\nuses: {self.uses}")
         defs = []
         for i in self.items:
             if isinstance(i, Var):
@@ -208,7 +210,7 @@ class Module:
             if isinstance(i, Var):
                 lines.append(i.decl_src())
             elif isinstance(i, Module):
-                lines.append(f"initializes: {i.alias}")
+                lines.append(f"initializes: {i.alias}" + (f"[{i.uses} := {i.uses}]" if i.uses else ""))
             else:
                 lines.append(f"{i[1]}: constant(uint256) = 7")
         if self.has_init():
@@ -220,6 +222,8 @@ class Module:
                 elif isinstance(i, Module) and i.has_init():
                     body.append(f"    {i.alias}.__init__()")
             lines += body or ["    pass"]
+        if self.uses:
+            lines.append(f"@internal\ndef _touch_{self.alias}():\n    {self.uses}.g_{self.uses} = 1")
         if self.nr:
             if top:
                 lines.append("@external\n@nonreentrant\ndef nrf():\n    pass")
@@ -261,3 +265,28 @@ def gen_module(rnd, names, alias, depth, transient_ok, big, code_budget, overrid
         items.append(Var(names.fresh("v"), loc, ty))
     nr = rnd.random() < 0.4
     return Module(alias, items, nr)
+
+
+def gen_uses_chain(rnd, names, transient_ok):
+    """top module initialising a chain lc uses lb uses la (3 deep), each with variables in every location; the
+    `initializes` statements appear in random order between the top module's own variables"""
+    chain = []
+    prev = None
+    for d in range(3):
+        alias = names.fresh("lu")
+        items = [Var(f"g_{alias}", "storage", T("word", name="uint256"))]
+        for _ in range(rnd.randint(0, 3)):
+            loc = rnd.choice(["storage"] * 3 + (["transient"] * 2 if transient_ok else []) + ["code"] * 2)
+            ty = gen_type(rnd, names, 1 if loc == "code" else 2, allow_map=(loc != "code"), big=False, small=True)
+            items.append(Var(names.fresh("v"), loc, ty))
+        if rnd.random() < 0.3:
+            items.insert(rnd.randrange(len(items) + 1), gen_module(rnd, names, names.fresh("lib"), 0, transient_ok, False, None))
+        chain.append(Module(alias, items, rnd.random() < 0.4, uses=prev))
+        prev = alias
+    top_items = list(chain)
+    rnd.shuffle(top_items)
+    for _ in range(rnd.randint(1, 3)):
+        loc = rnd.choice(["storage"] * 3 + (["transient"] if transient_ok else []) + ["code"])
+        ty = gen_type(rnd, names, 1 if loc == "code" else 2, allow_map=(loc != "code"), big=False, small=True)
+        top_items.insert(rnd.randrange(len(top_items) + 1), Var(names.fresh("v"), loc, ty))
+    return Module("top", top_items, rnd.random() < 0.4)
